@@ -44,7 +44,12 @@ func H_C14_iter() {
 	}
 	h.Set("lim", object.NewPanInt(lim))
 	h.Set("d", object.NewPanInt(d))
-	r := h.EvalNoPanic(`gen := <{|n| yield n * 10 + 1 if n < lim; recur(n + d)}>`)
+	lit := `gen := <{|n| yield n * 10 + 1 if n < lim; recur(n + d)}>`
+	if rt.Param(4) == 1 {
+		// the same iterator written without declared parameters (state in the implicit argument \)
+		lit = "gen := <{yield \\ * 10 + 1 if \\ < lim; recur(\\ + d)}>"
+	}
+	r := h.EvalNoPanic(lit)
 	_, isErr := r.(*object.PanErr)
 	rt.Assert(!isErr, "iterator literal must evaluate")
 	st := make([]*c14State, 2)
